@@ -274,6 +274,17 @@ def _corrupt(v):
     if isinstance(v, list):
         if not v:
             return None  # empty byte string / None: shape unknown, do not touch
+        if all(isinstance(x, str) for x in v):
+            return None  # a bare error tag such as ["err"]: one-directional contracts do not pin it
+        if isinstance(v[0], str) and len(v) > 1:
+            # tagged result ["ok", value, ...]: corrupt the value, not the tag
+            w = list(v)
+            for i in range(1, len(w)):
+                c = _corrupt(w[i])
+                if c is not None:
+                    w[i] = c
+                    return w
+            return None
         if all(isinstance(x, int) and not isinstance(x, bool) for x in v):
             w = list(v)
             w[0] ^= 1
